@@ -142,6 +142,7 @@ type State struct {
 	events  []Event
 	dead    bool
 	gmaps   []guardedMap // map references loaded from mutex-guarded fields on this path
+	lastCall string      // site of the most recent call made by the function under contract on this path
 	txnCount int         // database transactions completed on this path
 	strConvs []strConv   // []byte(s) conversions made on this path: the fresh array and the string it holds
 }
@@ -161,7 +162,7 @@ type guardedMap struct {
 }
 
 func (s *State) clone() *State {
-	t := &State{alloc: s.alloc, clock: s.clock, gmaps: s.gmaps[:len(s.gmaps):len(s.gmaps)], txnCount: s.txnCount, strConvs: s.strConvs[:len(s.strConvs):len(s.strConvs)]}
+	t := &State{alloc: s.alloc, clock: s.clock, gmaps: s.gmaps[:len(s.gmaps):len(s.gmaps)], txnCount: s.txnCount, lastCall: s.lastCall, strConvs: s.strConvs[:len(s.strConvs):len(s.strConvs)]}
 	t.pc = append([]string{}, s.pc...)
 	t.heaps = make(map[string]*Term, len(s.heaps))
 	for k, v := range s.heaps {
@@ -225,6 +226,7 @@ type Obligation struct {
 	Pos       string
 	Script    string
 	Prefix    string // script up to (not including) the goal assertion
+	After     string // site of the last call the function made before this obligation arose (identifies the failing path class)
 	Seq       int    // position in the discharge order: makes the query file name unique
 	Group     string // obligations of one group share Prefix and are first tried as one conjunction
 	Goal      string
